@@ -38,7 +38,8 @@ def required_cells(tier):
             "toml-permuted", "duplicates-present", "cov-compared", "clustering-compared", "mode-flag-with-repeated-define", "file-symlinks", "cross-language-alias",
             "platform-names-case-variants", "pass-flags-reordered", "pass-headers-attributed", "clustering-with-case-variant-names",
             "order-dependent-exclude-patterns", "option-replacing-a-default-per-platform", "hard-linked-duplicate",
-            "non-member-header:included-from-fortran-and-c", "non-member-header:forced-by-assembly-and-c"]
+            "non-member-header:included-from-fortran-and-c", "non-member-header:forced-by-assembly-and-c",
+            "competing-modes-under-hash-seeds", "platforms-sharing-one-database"]
 
 
 PASS_CONFIG = """[[compiler.gcc.parser]]
@@ -173,12 +174,16 @@ def write_toml(case, base, root, perm_seed):
                    "arguments": ["nvcc", "--gpu-architecture=sm_%d" % [70, 80, 90, 75][k % 4], "-c", os.path.join(root, "extra", "kern.cu")]})
         with open(dbp, "w") as f:
             json.dump(es, f)
-    random.Random(perm_seed).shuffle(plats)
+    # a second platform that names the very same database file as the first one: the two always go together
+    twin = ("twin-of-" + plats[0], plats[0])
+    tables = [(p, p) for p in plats] + [twin]
+    random.Random(perm_seed).shuffle(tables)
+    plats = [t[0] for t in tables]
     with open(os.path.join(root, "analysis.toml"), "w") as f:
         # exclude patterns whose ORDER matters (a negation after a wildcard), half in the file, half on the command line
         f.write("[codebase]\nexclude = [\"extra/deep/*\", \"!extra/deep/v.hpp\"]\n\n")
-        for p in plats:
-            f.write(f"[platform.\"{p}\"]\ncommands = \"{os.path.join(base, 'dbs', forest.dbname(p))}\"\n\n")
+        for p, dbp in tables:
+            f.write(f"[platform.\"{p}\"]\ncommands = \"{os.path.join(base, 'dbs', forest.dbname(dbp))}\"\n\n")
     return plats
 
 
@@ -294,6 +299,8 @@ def check_case(ctx, case, base, cls, do_clustering=False):
         cells.add("distinct-scandir-orders")
     if "coverage" in base_obs:
         cells.add("cov-compared")
+    if any(k.startswith("twin-of-") or ",twin-of-" in k for k in base_obs.get("summary_rows", {})):
+        cells.add("platforms-sharing-one-database")
     ka = base_obs.get("attribution", {}).get("extra/kern.cu", {})
     if len({tuple(v) for v in ka.values()}) >= 3:
         cells.add("option-replacing-a-default-per-platform")      # the architecture-specific lines belong to different platforms
@@ -378,11 +385,47 @@ def mixed_language_scenarios(ctx, base):
             acc.held(cells=cells, cls="mixed", nontrivial={"scenario": name})
 
 
+def competing_modes_scenario(ctx, base):
+    """One command enables two modes of a user-defined compiler that define the same macro differently and bring search
+    directories holding a same-named header: whichever rule decides between them, it must not be the string-hash seed."""
+    acc = ctx.acc
+    d = os.path.join(base, "modes")
+    shutil.rmtree(d, ignore_errors=True)
+    root = os.path.join(d, "root")
+    for sub in ("ia", "ib", ".cbi"):
+        os.makedirs(os.path.join(root, sub))
+    files = {"ia/which.h": "#define WHICH_A 1\nint a;\n", "ib/which.h": "#define WHICH_B 1\nint b1;\nint b2;\n",
+             "main.c": "#include <which.h>\n#if LEVEL == 1\nint one;\n#elif LEVEL == 2\nint two;\nint deux;\n#endif\n#ifdef WHICH_A\nint wa;\n#endif\n",
+             ".cbi/config": "[compiler.mycc]\n" + "".join(
+                 f'[[compiler.mycc.parser]]\nflags = ["-f{x}"]\naction = "append_const"\ndest = "modes"\nconst = "m{x}"\n\n' for x in "ab") + "".join(
+                 f'[[compiler.mycc.modes]]\nname = "m{x}"\ndefines = ["LEVEL={n}"]\ninclude_paths = ["{root}/i{x}"]\n\n' for x, n in (("a", 1), ("b", 2)))}
+    for rel, text in files.items():
+        with open(os.path.join(root, rel), "w") as f:
+            f.write(text)
+    with open(os.path.join(root, "db.json"), "w") as f:
+        json.dump([{"file": "main.c", "directory": root, "arguments": ["mycc", "-fa", "-fb", "-c", "main.c"]}], f)
+    with open(os.path.join(root, "analysis.toml"), "w") as f:
+        f.write('[platform.p]\ncommands = "db.json"\n')
+    results = {}
+    for seed in ("0", "1", "2", "3", "4", "5", "6", "7"):
+        dump = os.path.join(d, "dump.json")
+        rc, out, err = cli.run("codebasin", ["-R", "summary", "analysis.toml"], root, launch={"dump": dump}, hashseed=seed)
+        acc.hook("cli-runs")
+        results[seed] = json.dumps(json.load(open(dump))["setmap"], sort_keys=True) if rc == 0 else "error: " + err[-200:]
+    cells = {"competing-modes-under-hash-seeds"}
+    if len(set(results.values())) != 1:
+        acc.violated({"input": {"scenario": "competing modes"}, "witness": {"kind": "result depends on PYTHONHASHSEED", "setmap_by_seed": results}}, cells=cells, cls="mixed")
+    else:
+        acc.held(cells=cells, cls="mixed", nontrivial={"scenario": "competing modes"})
+
+
 def run_shard(ctx):
     b = bounds(ctx.tier)
     base = os.path.join(ctx.scratch, "c14")
     if ctx.shard == 0:
         mixed_language_scenarios(ctx, base)
+    if ctx.shard == 1 % ctx.nshards:
+        competing_modes_scenario(ctx, base + "-modes")
     rng = ctx.rng("cases")
     for i in range(b["cases"]):
         case = gen_case(rng, i)
